@@ -243,6 +243,52 @@ def rule_constructors(ctx: Ctx):
               "SoftAlignment overrides check(): validation at construction applies the cover test to soft alignments", construct="override", key="override")
 
 
+def rule_message_formatting(ctx: Ctx):
+    """the checks raise SetPartitionError(<message naming the offending units>): the message is built first, and building it formats Unit
+    objects.  On the pinned tree that is the dataclass repr, which cannot fail.  A `__str__` / `__repr__` / `__format__` on Unit (or on
+    UnitaryAlignment, which one message embeds) runs in the middle of every refusal: a format specification applied to the Optional label
+    raises TypeError for an unlabelled unit - the check then fails with the wrong exception (recognised shape); a plain f-string over the
+    fields is accepted; anything else is not decided."""
+    M = ctx.model
+    n = 0
+    for cname in ("Unit", "UnitaryAlignment", "Segment"):
+        c = M.classes.get(cname)
+        if c is None:
+            continue
+        for mname in ("__str__", "__repr__", "__format__"):
+            g = c.methods.get(mname)
+            if g is None:
+                continue
+            n += 1
+            ctx.functions_analysed.add(g.qualname)
+            sn = g.self_name
+            rets = [r for r in walk_no_nested(g.node) if isinstance(r, ast.Return) and r.value is not None]
+            body_ok = len(rets) == 1 and len([s for s in g.node.body if not (isinstance(s, ast.Expr) and isinstance(s.value, ast.Constant))]) == 1
+            risky = None
+            plain = body_ok and isinstance(rets[0].value, (ast.JoinedStr, ast.Constant))
+            if body_ok and isinstance(rets[0].value, ast.JoinedStr):
+                for fv in rets[0].value.values:
+                    if not isinstance(fv, ast.FormattedValue):
+                        continue
+                    t = norm(fv.value)
+                    optional = t in (f"{sn}.annotation", f"{sn}.disorder", f"{sn}._disorder")
+                    if fv.format_spec is not None and optional:
+                        risky = fv
+                    elif not (t.startswith(f"{sn}.") and all(isinstance(x, (ast.Attribute, ast.Name, ast.Load)) for x in ast.walk(fv.value))):
+                        plain = False
+            if risky is not None:
+                ctx.bad("R-C17-1", g, risky, f"{cname}.{mname} applies the format specification `{norm(risky.format_spec)}` to `{norm(risky.value)}`, which is None for an unlabelled "
+                        f"unit: the SetPartitionError message of check() cannot be built and the refusal surfaces as TypeError", key=f"format:{cname}.{mname}")
+            elif plain:
+                ctx.ok("R-C17-1", g, rets[0], f"{cname}.{mname} is a plain f-string over the object's fields: building the error message cannot fail", key=f"format:{cname}.{mname}")
+            else:
+                ctx.undecided("R-C17-1", g, None, f"{cname}.{mname} runs while check() builds its SetPartitionError message; whether it can raise is not decided (not a verdict)",
+                              key=f"format:{cname}.{mname}", construct=mname)
+    if n == 0:
+        ctx.ok("R-C17-1", None, None, "Unit / UnitaryAlignment are formatted by their default (dataclass / object) repr in the error messages: cannot fail",
+               construct="message formatting", key="format:default")
+
+
 def run(ctx: Ctx):
     ctx.clauses += [
         "R-C17-1 Alignment.check: missing = continuum pairs - alignment pairs -> SetPartitionError; multiplicity > 1 -> SetPartitionError; empty slots skipped; normal exit otherwise",
@@ -252,6 +298,7 @@ def run(ctx: Ctx):
     ]
     ctx.not_decided += ["behaviour on units foreign to the continuum (outside the property's quantifier: alignments over the continuum's units)"]
     ctx.assumptions += ["Unit is hashable with value equality (frozen dataclass)"]
+    rule_message_formatting(ctx)
     check_unitary_record(ctx, "R-C17-1", nb_units=False)
     check_alignment_record(ctx, "R-C17-4")
     rule_partition_check(ctx)
